@@ -258,6 +258,54 @@ func (r RecordingIdentity) Unwrap(stanzas []*age.Stanza) ([]byte, error) {
 	return r.Inner.Unwrap(stanzas)
 }
 
+// Identity is an open interface: its implementations need not be comparable values. Keyring (a slice), IdentityFunc
+// (a func) and BoxedIdentity (a struct with a slice field) are ordinary Go shapes of an Identity that cannot be a map
+// key or an operand of ==.
+type Keyring []age.Identity
+
+func (k Keyring) Unwrap(stanzas []*age.Stanza) ([]byte, error) {
+	var last error = age.ErrIncorrectIdentity
+	for _, id := range k {
+		fk, err := id.Unwrap(stanzas)
+		if err == nil {
+			return fk, nil
+		}
+		last = err
+	}
+	return nil, last
+}
+
+type IdentityFunc func(stanzas []*age.Stanza) ([]byte, error)
+
+func (f IdentityFunc) Unwrap(stanzas []*age.Stanza) ([]byte, error) { return f(stanzas) }
+
+type BoxedIdentity struct {
+	Inner age.Identity
+	Notes []string
+}
+
+func (b BoxedIdentity) Unwrap(stanzas []*age.Stanza) ([]byte, error) { return b.Inner.Unwrap(stanzas) }
+
+// SameIdentity compares two identity values without ==.
+func SameIdentity(a, b age.Identity) bool {
+	switch x := a.(type) {
+	case Keyring:
+		y, ok := b.(Keyring)
+		return ok && len(x) == len(y) && (len(x) == 0 || SameIdentity(x[0], y[0]))
+	case IdentityFunc:
+		_, ok := b.(IdentityFunc)
+		return ok
+	case BoxedIdentity:
+		y, ok := b.(BoxedIdentity)
+		return ok && SameIdentity(x.Inner, y.Inner)
+	}
+	switch b.(type) {
+	case Keyring, IdentityFunc, BoxedIdentity:
+		return false
+	}
+	return a == b
+}
+
 // NoStanzaRecipient declares labels like LabelledRecipient and contributes no stanza (AgeCore recipient kind "Z").
 type NoStanzaRecipient struct {
 	Present bool
